@@ -517,6 +517,17 @@ func (x *Exec) specCallExpr(env *SpecEnv, e *SExpr) Value {
 			return BoolV{App("timeparse_ok", SBool, x.asTerm(x.specEval(env, e.Args[0])))}
 		case "timeparse_val":
 			return IntV{App("timeparse_val", SInt, x.asTerm(x.specEval(env, e.Args[0])))}
+		case "calls":
+			f := x.asTermAny(x.specEval(env, e.Args[0]))
+			return IntV{Select(env.st.ghostArr("callcount", SInt), f)}
+		case "httpstatus":
+			return IntV{Select(env.st.ghostArr("httpstatus", SInt), x.asTermAny(x.specEval(env, e.Args[0])))}
+		case "httpwrites":
+			return IntV{Select(env.st.ghostArr("httpwrites", SInt), x.asTermAny(x.specEval(env, e.Args[0])))}
+		case "cookie_has":
+			return BoolV{App("reqcookie_has", SBool, x.asTermAny(x.specEval(env, e.Args[0])), x.strID(env.st, x.specEval(env, e.Args[1]).(StrV)))}
+		case "cookie_val":
+			return IntV{App("reqcookie_val", SInt, x.asTermAny(x.specEval(env, e.Args[0])), x.strID(env.st, x.specEval(env, e.Args[1]).(StrV)))}
 		case "keyid":
 			return IntV{x.keyTerm(env.st, x.specEval(env, e.Args[0]))}
 		case "allocated":
